@@ -396,7 +396,7 @@ def add_hooks(draw, c, feats):
     req = [p['name'] for p in c['params'] if 'default' not in p]
     opt = [p for p in c['params'] if 'default' in p]
     names = [p['name'] for p in c['params']]
-    if draw(st.booleans()):
+    if 'norecognize' not in feats and draw(st.booleans()):
         if 'permissive' in feats and draw(st.integers(0, 2)) == 0:
             c['recognize'] = 'permissive'
         else:
